@@ -34,7 +34,7 @@ MANIFEST = dict(
          'hand models Fmt/LongString.v, Fmt/FgdBin.v, SM/LazyDb.v (tied by correspondence), CPython.',
 )
 
-IMPORTS = ['Coq.NArith.NArith', 'Coq.Lists.List', 'Coq.Strings.String', 'Coq.Bool.Bool', 'Coq.Arith.Arith', 'SV.Fmt.LongString', 'SV.Fmt.FgdBin', 'SV.Fmt.FgdBinEnt', 'SV.SM.LazyDb',
+IMPORTS = ['Coq.NArith.NArith', 'Coq.Lists.List', 'Coq.Strings.String', 'Coq.Bool.Bool', 'Coq.Arith.Arith', 'SV.Fmt.LongString', 'SV.Fmt.FgdBin', 'SV.Fmt.FgdBinEnt', 'SV.Fmt.FgdLine', 'SV.SM.LazyDb',
            'SV.Gen.FgdConsts_gen', 'SV.Props.C16']
 PRE = '''Import ListNotations. Open Scope bool_scope. Open Scope N_scope. Open Scope list_scope.
 Fixpoint bad_idx {A} (f : A -> bool) (n : N) (l : list A) : list N :=
@@ -389,6 +389,481 @@ def corr_strdict(ck: Ck) -> None:
         ck.tie_broken.append('correspondence BinStrDict (Fmt/FgdBin.v vs _engine_db.BinStrDict)')
         b, o, _, _, s, idx, dec = rows[bad[0]]
         ck.extra['strdict_disagreement'] = {'base_n': len(b), 'own': o, 'string': s, 'impl_index': idx, 'impl_decoded': dec}
+
+
+# ----------------------------------------------------------------------------------------------- text lines
+LINE_PRE = """
+Definition upperN (s : list N) : list N := map (fun c => if (97 <=? c) && (c <=? 122) then c - 32 else c) s.
+Fixpoint lstrip_tagc (s : list N) : list N := match s with c :: r => if (c =? 33) || (c =? 45) || (c =? 43) then lstrip_tagc r else s | [] => [] end.
+Fixpoint nodup_s (l : list (list N)) : bool := match l with [] => true | x :: r => negb (existsb (str_eqb x) r) && nodup_s r end.
+Definition tag_norm (s : list N) : list N := upperN s.
+Definition tags_valid (l : list (list N)) : bool := nodup_s (map (fun t => upperN (lstrip_tagc t)) l).
+Fixpoint sassoc {V} (k : list N) (l : list (list N * V)) : option V :=
+  match l with [] => None | (x, v) :: r => if str_eqb x k then Some v else sassoc k r end.
+Definition flat {V} (o : option (option V)) : option V := match o with Some x => x | None => None end.
+Fixpoint str_leb (a b : list N) : bool :=
+  match a, b with [], _ => true | _, [] => false | x :: a', y :: b' => if x <? y then true else if y <? x then false else str_leb a' b' end.
+Fixpoint ins_s (x : list N) (l : list (list N)) := match l with [] => [x] | y :: r => if str_leb x y then x :: l else y :: ins_s x r end.
+Definition sort_s (l : list (list N)) := fold_right ins_s [] l.
+Definition tags_eqb (a b : list (list N)) : bool := list_eqb str_eqb (sort_s a) (sort_s b).
+Definition secs_eqb (a b : list (list N)) : bool := list_eqb str_eqb a b.
+Definition pow2 (n : N) : bool := negb (n =? 0) && (N.land n (n - 1) =? 0).
+Definition fitem_eqb (a b : N * list (list N) * bool * list (list N)) : bool :=
+  let '(v, n, d, t) := a in let '(v', n', d', t') := b in (v =? v') && secs_eqb n n' && Bool.eqb d d' && tags_eqb t t'.
+Definition citem_eqb (a b : list N * list (list N) * list (list N)) : bool :=
+  let '(v, n, t) := a in let '(v', n', t') := b in str_eqb v v' && secs_eqb n n' && tags_eqb t t'.
+Definition vlist_eqb (a b : vlist) : bool :=
+  match a, b with NoList, NoList => true | Flags x, Flags y => list_eqb fitem_eqb x y | Choices x, Choices y => list_eqb citem_eqb x y | _, _ => false end.
+Definition kvl_eqb (a b : kvline N) : bool :=
+  str_eqb (l_name N a) (l_name N b) && tags_eqb (l_tags N a) (l_tags N b) && (l_type N a =? l_type N b) && Bool.eqb (l_ro N a) (l_ro N b)
+  && Bool.eqb (l_report N a) (l_report N b) && secs_eqb (l_disp N a) (l_disp N b) && str_eqb (l_default N a) (l_default N b)
+  && secs_eqb (l_desc N a) (l_desc N b) && vlist_eqb (l_list N a) (l_list N b).
+Definition iol_eqb (a b : ioline N) : bool :=
+  str_eqb (o_name N a) (o_name N b) && tags_eqb (o_tags N a) (o_tags N b) && (o_type N a =? o_type N b) && secs_eqb (o_desc N a) (o_desc N b).
+Definition ritem_eqb (a b : N * list N * list (list N)) : bool :=
+  let '(t, f, g) := a in let '(t', f', g') := b in (t =? t') && str_eqb f f' && tags_eqb g g'.
+Fixpoint tok_eqb (a b : tok) : bool :=
+  match a, b with TStr x, TStr y | TParen x, TParen y => str_eqb x y | TColon, TColon | TEq, TEq | TPlus, TPlus | TNl, TNl
+  | TBrOpen, TBrOpen | TBrClose, TBrClose | TComma, TComma | TOther, TOther => true | _, _ => false end.
+Definition vt_text (v : N) : list N := nth (N.to_nat v) vt_texts [].
+Definition vt_lookup (s : list N) : option (bool * N) := flat (sassoc s vt_tab).
+Definition io_text (v : N) : list N := nth (N.to_nat v) io_texts [].
+Definition io_lookup (s : list N) : option N := flat (sassoc s io_tab).
+Definition rt_text (v : N) : list N := nth (N.to_nat v) rt_texts [].
+Definition rt_lookup (s : list N) : option N := flat (sassoc s rt_tab).
+Definition decf (n : N) : list N := match find (fun p => fst p =? n) dec_tab with Some p => snd p | None => [] end.
+Definition undec (s : list N) : option N := flat (sassoc s undec_tab).
+Definition is_bool (v : N) := v =? vt_bool.  Definition is_flags (v : N) := v =? vt_flags.  Definition is_choices (v : N) := v =? vt_choices.
+Definition KT (label custom : bool) (k : kvline N) := kv_toks N vt_text is_bool is_flags decf gen_line_cfg label custom k.
+Definition KP (name : list N) (ts : list tok) := kv_parse tag_norm tags_valid N vt_lookup is_bool is_flags is_choices decf undec pow2 name ts.
+Definition IT (custom : bool) (o : ioline N) := io_toks N io_text custom o.
+Definition IP (ts : list tok) := io_parse tag_norm tags_valid N io_lookup ts.
+Definition RT (res : option (list (N * list N * list (list N)))) := res_toks gen_line_cfg N rt_text true res.
+Definition RR (ts : list tok) := res_read tag_norm tags_valid N rt_lookup ts.
+(* writer cases: 0 = agree *)
+Definition wcase {X} (f : X -> list tok) (c : X * list tok) : N := if list_eqb tok_eqb (f (fst c)) (snd c) then 0 else 1.
+(* parser cases: expected None = the implementation raises; Some (value, number of tokens left) *)
+Definition pcase {X} (eqb : X -> X -> bool) (got : option (X * list tok)) (want : option (X * N)) : N :=
+  match got, want with
+  | None, None => 0
+  | Some (x, r), Some (y, n) => if eqb x y && (N.of_nat (List.length r) =? n) then 0 else 1
+  | Some _, None => 2
+  | None, Some _ => 3
+  end.
+"""
+
+
+_SDEFS: dict[str, str] = {}      # long strings of the line correspondence, defined once in the Coq preamble
+_SDEF_LINES: list[str] = []
+
+
+def coq_s(x: str) -> str:
+    """A string as `list N`; strings of 24+ characters are defined once (`sK`) and referred to by name."""
+    if len(x) < 24:
+        return '[' + ';'.join(str(ord(c)) for c in x) + ']'
+    if x not in _SDEFS:
+        _SDEFS[x] = f's{len(_SDEFS)}'
+        _SDEF_LINES.append('Definition %s : list N := [%s].' % (_SDEFS[x], ';'.join(str(ord(c)) for c in x)))
+    return _SDEFS[x]
+
+
+def coq_s_joined(whole: str, secs: list[str]) -> None:
+    """Register a long text as the concatenation of its (already registered) sections."""
+    if len(secs) > 1 and whole not in _SDEFS and ''.join(secs) == whole:
+        _SDEFS[whole] = f's{len(_SDEFS)}'
+        _SDEF_LINES.append('Definition %s : list N := %s.' % (_SDEFS[whole], ' ++ '.join(coq_s(x) for x in secs)))
+
+
+def coq_tok(tok: Any, val: str) -> str:
+    from srctools.tokenizer import Token as T
+    simple = {T.COLON: 'TColon', T.EQUALS: 'TEq', T.PLUS: 'TPlus', T.NEWLINE: 'TNl', T.BRACK_OPEN: 'TBrOpen', T.BRACK_CLOSE: 'TBrClose',
+              T.COMMA: 'TComma'}
+    if tok is T.STRING:
+        return 'TStr ' + coq_s(val)
+    if tok is T.PAREN_ARGS:
+        return 'TParen ' + coq_s(val)
+    return simple.get(tok, 'TOther')
+
+
+def fgd_tokens(text: str) -> list[tuple[Any, str]]:
+    import srctools.fgd as F
+    from srctools.tokenizer import Token as T, Tokenizer
+    tok = Tokenizer(text, 'c16', error=F.FGDParseError, string_bracket=False, colon_operator=True, plus_operator=True)
+    out = []
+    while True:
+        t, v = tok()
+        if t is T.EOF:
+            return out
+        out.append((t, v))
+
+
+def text_sections(text: str, custom: bool, indent: str = '\t') -> list[str]:
+    """The sections _write_longstring splits `text` into, as the tokenizer reads them back."""
+    from srctools.tokenizer import Token as T
+    secs = [v for t, v in fgd_tokens(impl_write(custom, text, indent) + '\n') if t is T.STRING]
+    for x in secs:
+        coq_s(x)
+    coq_s_joined(text, secs)
+    return secs
+
+
+class LineTables:
+    """The abstract parameters of Fmt/FgdLine.v tabulated from the implementation's own tables / functions."""
+
+    def __init__(self) -> None:
+        from srctools.fgd import RESTYPE_TO_NAME, VALUE_TO_IO_DECAY, ValueTypes
+        self.vts = list(ValueTypes)
+        self.vt_index = {v: i for i, v in enumerate(self.vts)}
+        self.rts = list(RESTYPE_TO_NAME)
+        self.rt_index = {v: i for i, v in enumerate(self.rts)}
+        self.raw: set[str] = set()        # every short STRING / PAREN value of every token stream
+        self.ints: set[int] = set()
+        self.io_text = ['bool' if v is ValueTypes.BOOL else VALUE_TO_IO_DECAY[v].value for v in self.vts]
+
+    def note(self, toks: list[tuple[Any, str]]) -> None:
+        for _, v in toks:
+            if v is not None and len(v) <= 40:
+                self.raw.add(v)
+
+    def vt_lookup(self, raw: str) -> Optional[tuple[bool, int]]:
+        from srctools.fgd import VALUE_TYPE_LOOKUP
+        r = raw.strip()
+        star = r.startswith('*')
+        if star:
+            r = r[1:]
+        v = VALUE_TYPE_LOOKUP.get(r.casefold())
+        return None if v is None else (star, self.vt_index[v])
+
+    def io_lookup(self, raw: str) -> Optional[int]:
+        from srctools.fgd import VALUE_TYPE_LOOKUP, ValueTypes
+        r = raw.strip()
+        v = ValueTypes.EHANDLE if r == 'ehandle' else VALUE_TYPE_LOOKUP.get(r.casefold())
+        return None if v is None else self.vt_index[v]
+
+    def rt_lookup(self, raw: str) -> Optional[int]:
+        from srctools.fgd import RESTYPE_BY_NAME
+        v = RESTYPE_BY_NAME.get(raw.casefold())
+        return None if v is None or v not in self.rt_index else self.rt_index[v]
+
+    @staticmethod
+    def undec(raw: str) -> Optional[int]:
+        try:
+            n = int(raw)
+        except ValueError:
+            return None
+        return n if 0 <= n < 2 ** 40 else None
+
+    def preamble(self) -> str:
+        from srctools.fgd import RESTYPE_TO_NAME, ValueTypes
+        opt = lambda x, f: 'None' if x is None else 'Some ' + f(x)   # noqa: E731
+        raws = sorted(self.raw)
+        lines = [
+            'Definition vt_texts : list (list N) := %s.' % coq_list(coq_s(v.value) for v in self.vts),
+            'Definition io_texts : list (list N) := %s.' % coq_list(coq_s(x) for x in self.io_text),
+            'Definition rt_texts : list (list N) := %s.' % coq_list(coq_s(RESTYPE_TO_NAME[v]) for v in self.rts),
+            'Definition vt_tab : list (list N * option (bool * N)) := %s.' % coq_list(
+                '(%s, %s)' % (coq_s(r), opt(self.vt_lookup(r), lambda p: '(%s, %d)' % (coq_bool(p[0]), p[1]))) for r in raws),
+            'Definition io_tab : list (list N * option N) := %s.' % coq_list('(%s, %s)' % (coq_s(r), opt(self.io_lookup(r), str)) for r in raws),
+            'Definition rt_tab : list (list N * option N) := %s.' % coq_list('(%s, %s)' % (coq_s(r), opt(self.rt_lookup(r), str)) for r in raws),
+            'Definition undec_tab : list (list N * option N) := %s.' % coq_list('(%s, %s)' % (coq_s(r), opt(self.undec(r), str)) for r in raws),
+            'Definition dec_tab : list (N * list N) := %s.' % coq_list('(%d, %s)' % (n, coq_s(str(n))) for n in sorted(self.ints)),
+            'Definition vt_bool : N := %d. Definition vt_flags : N := %d. Definition vt_choices : N := %d.' % (
+                self.vt_index[ValueTypes.BOOL], self.vt_index[ValueTypes.SPAWNFLAGS], self.vt_index[ValueTypes.CHOICES]),
+        ]
+        return '\n'.join(_SDEF_LINES) + '\n' + '\n'.join(lines) + '\n' + LINE_PRE
+
+
+def coq_secs(secs: Iterable[str]) -> str:
+    return coq_list(coq_s(x) for x in secs)
+
+
+def kv_line_literal(lt: LineTables, kv: Any, tags: Iterable[str], secs: Callable[[str], list[str]], choice_secs: Callable[[str], list[str]],
+                    label_secs: Optional[Callable[[int, str], list[str]]] = None) -> str:
+    """A KVDef as a Coq `kvline N`.  `secs` gives the sections of a long string (writer side) or [text] (parser side)."""
+    from srctools.fgd import ValueTypes
+    if kv.type is ValueTypes.SPAWNFLAGS:
+        items = []
+        for v, name, d, tg in (kv.val_list or []):
+            lt.ints.add(v)
+            items.append('(%d, %s, %s, %s)' % (v, coq_secs(secs(name.replace('\n', ' ')) if label_secs is None else label_secs(v, name.replace('\n', ' '))),
+                                               coq_bool(bool(d)), coq_secs(sorted(tg))))
+        vl = 'Flags ' + coq_list(items)
+    elif kv.type is ValueTypes.CHOICES:
+        vl = 'Choices ' + coq_list('(%s, %s, %s)' % (coq_s(v), coq_secs(choice_secs(name.replace('\n', ' '))), coq_secs(sorted(tg)))
+                                   for v, name, tg in (kv.val_list or []))
+    else:
+        vl = 'NoList'
+    return 'mk_kvl N %s %s %d %s %s %s %s %s (%s)' % (coq_s(kv.name), coq_secs(sorted(tags)), lt.vt_index[kv.type], coq_bool(kv.readonly),
+                                                     coq_bool(kv.reportable), coq_secs(secs(kv.disp_name)), coq_s(kv.default),
+                                                     coq_secs(secs(kv.desc)), vl)
+
+
+def gen_line_text(rng: random.Random, kind: str, safe: bool) -> str:
+    """Texts for the line correspondence: `long` = just over one or two LIMITs (2-3 sections), and rare (the Coq
+    literals are what costs time)."""
+    if kind != 'long':
+        return gen_text(rng, kind, safe=safe)
+    if rng.random() < 0.7:
+        return gen_text(rng, 'short', safe=safe)
+    n = rng.choice([1003, 1040, 2030])
+    words = []
+    while sum(map(len, words)) + len(words) < n:
+        words.append(rng.choice(WORDS) if rng.random() < 0.93 else rng.choice(SPECIAL))
+    s = ' '.join(words) if rng.random() < 0.7 else ''.join(w for w in words if w != ' ')
+    return s.replace('"', "'").replace('\\', '/').replace('\r', ' ') if safe else s
+
+
+def gen_line_kv(rng: random.Random, plain: bool) -> tuple[Any, frozenset]:
+    from srctools.fgd import KVDef, ValueTypes
+    txt = lambda *kinds_: gen_line_text(rng, rng.choice(kinds_), plain)   # noqa: E731
+    typ = rng.choice(list(ValueTypes)) if rng.random() < 0.6 else rng.choice([ValueTypes.SPAWNFLAGS, ValueTypes.CHOICES, ValueTypes.BOOL, ValueTypes.STRING])
+    name = rng.choice(KV_NAMES)
+    tg = lambda: frozenset() if plain else rng.choice(TAGSETS)   # noqa: E731
+    if typ is ValueTypes.SPAWNFLAGS:
+        vl: Any = [(1 << p, txt('short', 'short', 'special', 'empty', 'long').replace('\n', ' ').strip(), rng.random() < 0.5, tg())
+                   for p in sorted(rng.sample(range(0, 24), rng.randint(0, 4)))]
+        kv = KVDef(name, typ, name, '', '', vl or None)
+    elif typ is ValueTypes.CHOICES:
+        vals = rng.sample(['0', '1', '2', '-1', '1.5', 'abc', 'on', 'models/x.mdl', '16'], rng.randint(0, 4))
+        vl = [(v, gen_line_text(rng, rng.choice(['short', 'short', 'empty', 'long']), True).replace('\n', ' '), tg()) for v in vals]
+        kv = KVDef(name, typ, txt('short', 'empty', 'special'), rng.choice(DEFAULTS), txt('empty', 'short', 'long'), vl or None)
+    else:
+        kv = KVDef(name, typ, txt('short', 'short', 'empty', 'special', 'long'), rng.choice(DEFAULTS + (['yes', 'No'] if typ is ValueTypes.BOOL else [])),
+                   txt('empty', 'empty', 'short', 'special', 'long', 'long'))
+    kv.readonly, kv.reportable = rng.random() < 0.25, rng.random() < 0.25
+    return kv, (frozenset() if plain else rng.choice(TAGSETS))
+
+
+def mutate_tokens(rng: random.Random, toks: list[tuple[Any, str]]) -> list[tuple[Any, str]]:
+    from srctools.tokenizer import Token as T
+    toks = list(toks)
+    for _ in range(rng.choice([1, 1, 2])):
+        i = rng.randrange(len(toks) + 1)
+        r = rng.random()
+        if r < 0.3 and toks:
+            del toks[min(i, len(toks) - 1)]
+        elif r < 0.45 and len(toks) > 1:
+            j = min(i, len(toks) - 2)
+            toks[j], toks[j + 1] = toks[j + 1], toks[j]
+        elif r < 0.55 and toks:
+            toks.insert(i, toks[min(i, len(toks) - 1)])
+        else:
+            toks.insert(i, rng.choice([(T.COLON, ':'), (T.NEWLINE, '\n'), (T.PLUS, '+'), (T.EQUALS, '='), (T.STRING, 'x'), (T.STRING, 'readonly'),
+                                       (T.STRING, 'Report'), (T.STRING, '1'), (T.STRING, '3'), (T.BRACK_OPEN, '['), (T.BRACK_CLOSE, ']'), (T.COMMA, ','),
+                                       (T.PAREN_ARGS, ' *Integer '), (T.PAREN_ARGS, 'bool'), (T.STRING, '[4] lab'), (T.STRING, 'TF2')]))
+    return toks
+
+
+def impl_parse_tokens(which: str, toks: list[tuple[Any, str]]) -> Any:
+    """Run the real KVDef._parse / IODef._parse on a token list; returns (object, tags, tokens left) or None when it raises."""
+    import warnings
+    import srctools.fgd as F
+    from srctools.tokenizer import IterTokenizer, Token as T
+    tok = IterTokenizer(iter(toks), 'c16', F.FGDParseError)
+    fgd = F.FGD()
+    try:
+        with warnings.catch_warnings():
+            warnings.simplefilter('ignore')
+            if which == 'kv':
+                t0, name = tok()
+                if t0 is not T.STRING:
+                    return 'skip'
+                tags, obj = F.KVDef._parse(fgd, name, tok, 'c16')
+            else:
+                tags, obj = F.IODef._parse(fgd, tok)
+    except Exception:   # noqa: BLE001
+        return None
+    left = 0
+    while tok()[0] is not T.EOF:
+        left += 1
+    return obj, tags, left
+
+
+def line_data_obligations(ck: Ck) -> None:
+    """Premises of the line theorems of Props/C16.v that are facts about the implementation's tables (exhaustive)."""
+    import srctools.fgd as F
+    lt = LineTables()
+    bad = [v.name for v in lt.vts if lt.vt_lookup(v.value) != (False, lt.vt_index[v])]
+    ck.obligation('data:value_type_names_look_up_to_themselves', not bad,
+                  f'{len(lt.vts)} ValueTypes: strip / leading * / casefold / VALUE_TYPE_LOOKUP of `.value` gives the member, not reportable '
+                  f'(premise vt_lookup (vt_text v) = Some (false, v)); failing: {bad}')
+    bad = [v.name for i, v in enumerate(lt.vts) if lt.io_lookup(lt.io_text[i]) != lt.vt_index[F.VALUE_TO_IO_DECAY[v]]]
+    ck.obligation('data:io_type_names_look_up_to_the_decayed_type', not bad,
+                  f'what IODef.export writes for each of the {len(lt.vts)} types is read back as VALUE_TO_IO_DECAY[type] '
+                  f'(premise io_lookup (io_text v) = Some (io_decay v)); failing: {bad}')
+    bad = [t.name for t in lt.rts if lt.rt_lookup(F.RESTYPE_TO_NAME[t]) != lt.rt_index[t]]
+    ck.obligation('data:resource_type_names_look_up_to_themselves', not bad,
+                  f'{len(lt.rts)} resource types: RESTYPE_BY_NAME[RESTYPE_TO_NAME[t].casefold()] is t (premise rt_lookup (rt_text t) = Some t); failing: {bad}')
+    bad_t = []
+    for ts in TAGSETS:
+        try:
+            ok = F.validate_tags([t.casefold() for t in ts]) == ts and all(t.casefold().upper() == t for t in ts)
+        except ValueError:
+            ok = False
+        if not ok:
+            bad_t.append(sorted(ts))
+    ck.obligation('data:generated_tags_are_in_normal_form', not bad_t,
+                  f'{len(TAGSETS)} tag sets of the generators: upper-cased, distinct, accepted by validate_tags (premise tags_wf); failing: {bad_t}')
+    bad_n = [n for n in [0, 1, 2, 4, 1 << 23, 1 << 30, 12345] if int(str(n)) != n]
+    ck.obligation('data:int_of_str_of_int', not bad_n, 'premise undec (dec n) = Some n (spot check)')
+
+
+def corr_lines(ck: Ck) -> None:
+    """Fmt/FgdLine.v against the implementation.  Writers: the tokens the real Tokenizer reads from what KVDef.export /
+    IODef.export / EntityDef.export (@resources) write == kv_toks / io_toks / res_toks.  Readers: KVDef._parse / IODef._parse /
+    the @resources loop of EntityDef.parse on those token lists and on mutated ones (a token deleted, doubled, swapped,
+    inserted) == kv_parse / io_parse / res_read, including how many tokens are left."""
+    import srctools.fgd as F
+    from srctools.const import FileType
+    from srctools.fgd import EntityDef, EntityTypes, IODef, KVDef, Resource, ValueTypes
+    from srctools.tokenizer import IterTokenizer, Token as T
+    rng = ck.rng
+    lt = LineTables()
+    _SDEFS.clear()
+    _SDEF_LINES.clear()
+    w_kv, p_kv, w_io, p_io, w_res, p_res = [], [], [], [], [], []
+    one = lambda x: [x]   # noqa: E731
+    for i in range(ck.budget(70, 600)):
+        plain = i % 3 == 2
+        custom = not plain
+        label = rng.random() < 0.5
+        kv, tags = gen_line_kv(rng, plain)
+        buf = io.StringIO()
+        kv.export(buf, tags, label, custom)
+        toks = fgd_tokens(buf.getvalue())
+        lt.note(toks)
+        secs = lambda x, custom=custom: text_sections(x, custom)   # noqa: E731
+        lit = kv_line_literal(lt, kv, tags, secs, lambda x: text_sections(x, False, '\t\t'),
+                              lambda v, n, custom=custom, label=label: text_sections(n, custom, '\t\t'))
+        # spawnflag names: the model adds the label itself, but the split of the LABELLED text is what the writer chose
+        if kv.type is ValueTypes.SPAWNFLAGS and label:
+            def lsecs(v: int, n: str, custom=custom) -> list[str]:
+                s_ = text_sections(f'[{v}] {n}', custom, '\t\t')
+                pre = f'[{v}] '
+                return [s_[0][len(pre):]] + s_[1:] if s_ and s_[0].startswith(pre) else ['<label split>']
+            lit = kv_line_literal(lt, kv, tags, secs, lambda x: text_sections(x, False, '\t\t'), lsecs)
+        w_kv.append(('(%s, %s, %s)' % (coq_bool(label), coq_bool(custom), lit), toks))
+        ck.count('corr_lines_kv')
+        ck.hist('line_kv_type', 'flags' if kv.type is ValueTypes.SPAWNFLAGS else 'choices' if kv.type is ValueTypes.CHOICES else 'bool' if kv.type is ValueTypes.BOOL else 'other')
+        if len(toks) > 6:
+            ck.seen(('linekv', buf.getvalue()))
+        for mut in (False, True, True):
+            t2 = mutate_tokens(rng, toks) if mut else toks
+            lt.note(t2)
+            r = impl_parse_tokens('kv', t2)
+            if r == 'skip':
+                continue
+            ck.hist('line_kv_parse', ('mutated:' if mut else 'written:') + ('raises' if r is None else 'ok'))
+            if r is None:
+                want = 'None'
+            else:
+                obj, tg, left = r
+                if not isinstance(obj.type, ValueTypes):
+                    continue
+                want = 'Some (%s, %d)' % (kv_line_literal(lt, obj, tg, one, one), left)
+            p_kv.append((coq_s(t2[0][1]), t2[1:], want))
+            ck.count('corr_lines_kv_parse')
+    for i in range(ck.budget(40, 300)):
+        plain = i % 3 == 2
+        typ = rng.choice(list(ValueTypes))
+        if typ.has_list:
+            typ = ValueTypes.VOID
+        o = IODef(rng.choice(['Fire', 'Kill', 'SetValue', 'OnUser1']), typ, gen_line_text(rng, rng.choice(['empty', 'short', 'special', 'long']), plain))
+        tags = frozenset() if plain else rng.choice(TAGSETS)
+        buf = io.StringIO()
+        o.export(buf, 'input', tags, not plain)
+        toks = fgd_tokens(buf.getvalue())[1:]     # after the `input` keyword
+        lt.note(toks)
+        mk = lambda o_, tg, secs: 'mk_iol N %s %s %d %s' % (coq_s(o_.name), coq_secs(sorted(tg)), lt.vt_index[o_.type], coq_secs(secs(o_.desc)))   # noqa: E731
+        w_io.append(('(%s, %s)' % (coq_bool(not plain), mk(o, tags, lambda x, plain=plain: text_sections(x, not plain))), toks))
+        ck.count('corr_lines_io')
+        for mut in (False, True):
+            t2 = mutate_tokens(rng, toks) if mut else toks
+            lt.note(t2)
+            r = impl_parse_tokens('io', t2)
+            want = 'None' if r is None or not isinstance(r[0].type, ValueTypes) else 'Some (%s, %d)' % (mk(r[0], r[1], one), r[2])
+            p_io.append((t2, want))
+            ck.count('corr_lines_io_parse')
+    restypes = list(F.RESTYPE_TO_NAME)
+    for i in range(ck.budget(30, 200)):
+        e = EntityDef(EntityTypes.POINT, 'c16_ent')
+        kind = i % 4
+        if kind == 0:
+            res: Any = None
+        elif kind == 1:
+            res = []
+        else:
+            res = [Resource(rng.choice(['models/a.mdl', 'Weapon.Fire', 'materials/x y.vmt', 'a\\b.vmt', 'scripts/"q".nut']), rng.choice(restypes),
+                            rng.choice(TAGSETS)) for _ in range(rng.randint(1, 3))]
+        if res is not None:
+            e.resources = res
+        buf = io.StringIO()
+        e.export(buf, True, True)
+        toks = fgd_tokens(buf.getvalue())
+        body = toks[6:]       # after `@PointClass = name NEWLINE [ NEWLINE`
+        lt.note(body)
+        rlit = lambda rs: 'None' if rs is None else 'Some ' + coq_list('(%d, %s, %s)' % (lt.rt_index[r.type], coq_s(r.filename), coq_secs(sorted(r.tags))) for r in rs)   # noqa: E731
+        w_res.append((rlit(res), body))
+        ck.count('corr_lines_resources')
+        ck.hist('line_resources', ['undefined', 'empty', 'some', 'some'][kind])
+        for mut in (False, True):
+            b2 = list(body)
+            if mut and len(b2) > 3:
+                j = rng.randrange(len(b2) - 2)
+                if rng.random() < 0.5:
+                    b2.insert(j, (T.NEWLINE, '\n'))
+                elif b2[j][0] is T.NEWLINE:
+                    del b2[j]
+            lt.note(b2)
+            tk = IterTokenizer(iter(toks[:6] + b2), 'c16', F.FGDParseError)
+            fgd = F.FGD()
+            try:
+                tk()   # '@PointClass'
+                EntityDef.parse(fgd, tk, EntityTypes.POINT)
+                ent = fgd.entities['c16_ent']
+                got: Any = None if ent.resources == () else list(ent.resources)
+                want = 'Some (%s)' % rlit(got)
+            except Exception:   # noqa: BLE001
+                want = 'None'
+            p_res.append((b2, want))
+            ck.count('corr_lines_resources_parse')
+    tl = lambda ts: coq_list(coq_tok(t, v) for t, v in ts)   # noqa: E731
+    exprs = [
+        'map (wcase (fun c : bool * bool * kvline N => let \'(l, cu, k) := c in KT l cu k)) ' + coq_list('(%s, %s)' % (a, tl(ts)) for a, ts in w_kv),
+        'map (fun c : list N * list tok * option (kvline N * N) => let \'(n, ts, want) := c in pcase kvl_eqb (KP n ts) want) '
+        + coq_list('(%s, %s, %s)' % (n, tl(ts), w) for n, ts, w in p_kv),
+        'map (wcase (fun c : bool * ioline N => IT (fst c) (snd c))) ' + coq_list('(%s, %s)' % (a, tl(ts)) for a, ts in w_io),
+        'map (fun c : list tok * option (ioline N * N) => pcase iol_eqb (IP (fst c)) (snd c)) ' + coq_list('(%s, %s)' % (tl(ts), w) for ts, w in p_io),
+        'map (wcase (fun r => RT r ++ [TBrClose; TNl])) ' + coq_list('(%s, %s)' % (a, tl(ts)) for a, ts in w_res),
+        # the entity loop goes on after the block: compared when the model is left with NEWLINEs and the closing bracket
+        'map (fun c : list tok * option (option (list (N * list N * list (list N)))) => match RR (fst c), snd c with '
+        '| Some (r, rest), Some w => match skip_nl rest with [TBrClose] | [TBrClose; TNl] => '
+        'match r, w with None, None => 0 | Some a, Some b => if list_eqb ritem_eqb a b then 0 else 1 | _, _ => 1 end | _ => 4 end '
+        '| None, None => 0 | Some (_, rest), None => match skip_nl rest with [TBrClose] | [TBrClose; TNl] => 2 | _ => 4 end | None, Some _ => 3 end) '
+        + coq_list('(%s, %s)' % (tl(ts), w) for ts, w in p_res),
+    ]
+    vals = ck.coq_eval(IMPORTS, exprs, name='lines', preamble=PRE + lt.preamble(), timeout=900)
+    names = ['KVDef.export', 'KVDef._parse', 'IODef.export', 'IODef._parse', 'EntityDef.export @resources', 'EntityDef.parse @resources']
+    if vals is None:
+        ck.obligation('correspondence:text_lines_writers', False, 'model could not be evaluated')
+        ck.tie_broken.append('correspondence text lines: model evaluation failed')
+        return
+    codes = [parse_coq_N_list(v) for v in vals]
+    data = [w_kv, p_kv, w_io, p_io, w_res, p_res]
+    bad = {nm: [i for i, c in enumerate(cs) if c not in (0, 4)] for nm, cs in zip(names, codes)}
+    relaxed = sum(1 for cs in codes for c in cs if c == 4)
+    for kind, idxs in (('writers', (0, 2, 4)), ('readers', (1, 3, 5))):
+        nbad = sum(len(bad[names[i]]) for i in idxs)
+        ck.obligation(f'correspondence:text_lines_{kind}', nbad == 0,
+                      ', '.join(f'{names[i]}: {len(codes[i])} cases, {len(bad[names[i]])} disagreements' for i in idxs)
+                      + (f'; {relaxed} @resources streams where the model stopped elsewhere than the entity loop (not compared)' if kind == 'readers' else '')
+                      + ' (token lists from the real Tokenizer; Fmt/FgdLine.v with the tables of the implementation)')
+        if nbad:
+            ck.tie_broken.append(f'correspondence text lines, {kind} (Fmt/FgdLine.v vs fgd.py)')
+            first = next(names[i] for i in idxs if bad[names[i]])
+            j = bad[first][0]
+            row = data[names.index(first)][j]
+            ck.extra[f'text_line_{kind}_disagreement'] = {'site': first, 'code': codes[names.index(first)][j], 'case': [str(x)[:600] for x in row]}
 
 
 # ----------------------------------------------------------------------------------------------- binary records
@@ -1295,6 +1770,13 @@ def run(ck: Ck) -> None:
             'binary_layout_iodef': 'layout_io_ok',
             'binary_layout_ent_serialise': 'layout_ent_writer_ok',
             'binary_layout_ent_unserialise': 'layout_ent_reader_ok',
+            'text_kv_two_colons_before_description_without_default': '(colons_before_desc_without_default gen_line_cfg =? 2)%nat',
+            'text_kv_one_colon_between_default_and_description': '(kv_colons_after_default =? 1)%nat',
+            'text_bool_default_written_as_0': 'bool_default_filled gen_line_cfg',
+            'text_resources_block_written_when_defined': 'res_block_if_defined gen_line_cfg',
+            'text_line_cfg_ok_is_these': 'Bool.eqb (line_cfg_ok gen_line_cfg) ((colons_before_desc_without_default gen_line_cfg =? 2)%nat '
+                                         '&& bool_default_filled gen_line_cfg && res_block_if_defined gen_line_cfg)',
+            'text_empty_resources_need_the_block': 'empty_resources_need_block',
             'lazy_bases_resolved_through_get_ent': 'lazy_via_get_ent',
             'lazy_block_marked_before_bases_loop': 'lazy_mark_before_resolve',
             'lazy_map_lookup_is_refuted': 'map_lookup_breaks',
@@ -1304,6 +1786,8 @@ def run(ck: Ck) -> None:
         corr_bits(ck)
         corr_strdict(ck)
         corr_binary_records(ck, data, tb)
+        line_data_obligations(ck)
+        corr_lines(ck)
         corr_lazy(ck, data, tb, bool(side.get('engine_db', {}).get('lazy', {}).get('via_get_ent', True)))
         # informational: duplicates in the order lists (harmless, see c16_order_roundtrip)
         vo = side.get('engine_db', {}).get('vt_order', [])
@@ -1330,6 +1814,14 @@ def run(ck: Ck) -> None:
         ck.explain('correspondence:BinStrDict')
         ck.explain('correspondence:binary_')
         ck.explain('instance:binary_')
+    if any('resources' in k and (k.startswith('generated-fgd') or k.startswith('bundled-db')) for k in keys):
+        ck.explain('instance:text_resources_block_written_when_defined')
+        ck.explain('instance:text_line_cfg_ok_is_these')
+    if any(k.startswith('generated-fgd') or k.startswith('bundled-db') for k in keys):
+        ck.explain('instance:text_kv_')
+        ck.explain('instance:text_bool_')
+        ck.explain('instance:text_line_cfg_ok_is_these')
+        ck.explain('correspondence:text_lines_')
     if any(k.startswith('lazy-') for k in keys):
         ck.explain('correspondence:lazy_db')
         ck.explain('instance:lazy_')
